@@ -2,12 +2,12 @@
 StreamableClientTransport.Connect, streamableClientConn sessionUpdated / connectStandaloneSSE / Write / Read / fail / Close,
 as driven by mcp.Client.Connect and a ClientSession through internal/jsonrpc2).
 
-model     spec/StreamCliLife.tla (one action per request / response step; SDK-internal steps: ConnInit, Reader, ReaderFail,
+model     spec/StreamCliLife.tla (one action per request / response step; SDK-internal steps: ConnInit, ConnSA, Reader, ReaderFail,
           ReaderEOF, TClose, Done) with StreamCliLifeMC: exhaustive TLC on small constants (every interleaving: safety;
           liveness under fairness), the two deviations D5 / D6 as leads (must be found as implemented, must be absent with the
           Fix switch), reachability witnesses, -coverage 1 in the thorough tier
 generate  transition covers (tools/graphwalk.py) of the seam-level ("settled") state graphs dumped by TLC for seven
-          configurations + TLC -simulate behaviours of larger configurations + corner histories (among them the scenarios of the two leads)
+          profiles + TLC -simulate behaviours of four larger profiles + corner histories (among them the scenarios of the two leads)
 replay    harness/mcp/x12_streamclilife_test.go: a REAL mcp.Client + StreamableClientTransport against a scripted
           http.RoundTripper under testing/synctest, one snapshot after every action
 judge     StreamCliLifeMon.tla (properties L1..L9 -> verdict), StreamCliLifeTrace.tla (strict: every step explained -> drift)
@@ -18,32 +18,30 @@ import vlib, graphwalk
 
 PID = "X12"
 HARNESS = ["mcp/x12_streamclilife_test.go"]
-ACTIONS = ["Connect", "CancelConnect", "Call", "Notify", "Close", "AnsPost", "Auth", "Ev", "AnsGet", "SaEv", "DelTimeout",
-           "ConnInit", "Reader", "ReaderFail", "ReaderEOF", "TClose", "Done"]
+ENV_ACTIONS = ["Connect", "CancelConnect", "Call", "Notify", "Close", "AnsPost", "Auth", "Ev", "AnsGet", "SaEv", "DelTimeout"]
+SDK_ACTIONS = ["ConnInit", "ConnSA", "Reader", "ReaderFail", "ReaderEOF", "TClose", "Done"]
+# names under which TLC reports them in the exhaustive specification (StreamCliLife!Next)
+ACTIONS = ["DelTimeout"] + [a + "N" for a in ENV_ACTIONS if a != "DelTimeout"] + [a + "N" for a in SDK_ACTIONS]
 
-# configuration of the behaviours a generation config produces (singleton sets in the .cfg)
-COVERS = [
-    ("StreamCliLife_cover_a.cfg", {"sa": False, "oauth": False, "del": "ok"}),
-    ("StreamCliLife_cover_b.cfg", {"sa": True, "oauth": False, "del": "ok"}),
-    ("StreamCliLife_cover_c.cfg", {"sa": False, "oauth": False, "del": "404"}),
-    ("StreamCliLife_cover_d.cfg", {"sa": False, "oauth": True, "del": "405"}),
-    ("StreamCliLife_cover_e.cfg", {"sa": True, "oauth": False, "del": "neterr"}),
-    ("StreamCliLife_cover_f.cfg", {"sa": True, "oauth": False, "del": "timeout"}),
-    ("StreamCliLife_cover_g.cfg", {"sa": False, "oauth": False, "del": "ok"}),
-]
-SIMS = [
-    ("StreamCliLife_sim_a.cfg", {"sa": True, "oauth": False, "del": "ok"}),
-    ("StreamCliLife_sim_b.cfg", {"sa": False, "oauth": True, "del": "405"}),
-    ("StreamCliLife_sim_c.cfg", {"sa": True, "oauth": False, "del": "neterr"}),
-]
-LEADS = [  # (config, invariant that must be violated, cfg of the behaviour)
-    ("StreamCliLife_lead_stream.cfg", "NothingLeft", {"sa": False, "oauth": False, "del": "ok"}),
-    ("StreamCliLife_lead_cancel.cfg", "ConnectHonoursContext", {"sa": True, "oauth": False, "del": "ok"}),
-]
-WITNESSES = [("StreamCliLife_mc_a.cfg", w) for w in ("NeverGone", "NeverCloseWaits", "NeverImplicitDelete", "NeverRetiredWhileWriting")] + \
-            [("StreamCliLife_mc_c.cfg", "NeverLateId"), ("StreamCliLife_mc_d.cfg", "NeverRetry"),
-             ("StreamCliLife_mc_b.cfg", "NeverPingAnswered"), ("StreamCliLife_mc_e.cfg", "NeverConnectDelete"),
-             ("StreamCliLife_mc_e.cfg", "NeverSecondClose")]
+WITNESSES = ["NeverGone", "NeverCloseWaits", "NeverImplicitDelete", "NeverRetiredWhileWriting", "NeverLateId", "NeverRetry",
+             "NeverPingAnswered", "NeverConnectDelete", "NeverSecondClose", "NeverDeleteTimeout", "NeverCancelledWhileGet",
+             "NeverMismatch"]
+LEADS = [("StreamCliLife_lead_stream.cfg", "NothingLeft"), ("StreamCliLife_lead_cancel.cfg", "ConnectHonoursContext")]
+
+_prof = re.compile(r'P = \[(.*?)\]\s*(?:\\n|\n|$)', re.S)
+
+
+def cfg_of_state(text):
+    """The configuration (standalone stream, OAuth handler, answer to the DELETE) of a behaviour, from the profile record P
+    in the text of one of its states."""
+    t = text.replace('\\"', '"').replace('\\n', '\n')
+    sa = re.search(r"\bsa \|-> (TRUE|FALSE)", t)
+    oa = re.search(r"\boauth \|-> (TRUE|FALSE)", t)
+    de = re.search(r'\bdel \|-> "(\w+)"', t)
+    nm = re.search(r'\bname \|-> "(\w+)"', t)
+    if not (sa and oa and de and nm):
+        raise vlib.MachineryError("cannot read the profile from a TLC state: %s" % text[:300])
+    return nm.group(1), {"sa": sa.group(1) == "TRUE", "oauth": oa.group(1) == "TRUE", "del": de.group(1)}
 
 
 def wdir():
@@ -62,36 +60,28 @@ def spec_text(name):
 
 def model_check(v, tier):
     quick = tier == "quick"
-    jobs = [("StreamCliLife_mc_a.cfg", 2), ("StreamCliLife_mc_b.cfg", 2), ("StreamCliLife_mc_c.cfg", 2),
-            ("StreamCliLife_mc_d.cfg", 1), ("StreamCliLife_mc_e.cfg", 1), ("StreamCliLife_mc_f.cfg", 1),
-            ("StreamCliLife_live_a.cfg", 2), ("StreamCliLife_live_b.cfg", 2),
-            ("StreamCliLife_ideal.cfg", 1)]
+    jobs = [("StreamCliLife_mc_q.cfg", 3), ("StreamCliLife_live_q.cfg", 2), ("StreamCliLife_ideal.cfg", 1)]
     if not quick:
-        jobs += [("StreamCliLife_mc_t1.cfg", 4), ("StreamCliLife_mc_t2.cfg", 4), ("StreamCliLife_mc_t3.cfg", 3),
-                 ("StreamCliLife_live_t.cfg", 3)]
+        jobs += [("StreamCliLife_mc_t.cfg", 4), ("StreamCliLife_live_t.cfg", 3)]
 
     def mc(job):
         cfg, workers = job
-        cov = (not quick) and cfg in ("StreamCliLife_mc_a.cfg", "StreamCliLife_mc_b.cfg", "StreamCliLife_mc_d.cfg",
-                                      "StreamCliLife_mc_e.cfg", "StreamCliLife_mc_f.cfg")
+        cov = (not quick) and cfg in ("StreamCliLife_mc_q.cfg",)
         return job, vlib.run_tlc("StreamCliLifeMC", cfg, workdir=wdir(), workers=workers, timeout=1500,
                                  heap_gb=3 if quick else 8, coverage=cov)
 
     def lead(job):
-        cfg, inv, _ = job
+        cfg, inv = job
         return job, vlib.run_tlc("StreamCliLifeMC", cfg, workdir=wdir(), workers=1, timeout=300, heap_gb=2)
 
-    def wit(job):
-        base, w = job
-        txt = spec_text(base)
-        txt = re.sub(r"(?m)^(INVARIANTS|PROPERTIES|VIEW).*\n(?:  .*\n)*", "", txt).replace("FairSpec", "Spec")
-        txt += "INVARIANT %s\n" % w
-        return w, vlib.run_tlc("StreamCliLifeMC", "wit.cfg", workdir=wdir(), extra_files={"wit.cfg": txt}, workers=1, timeout=300, heap_gb=2)
+    def wit(w):
+        txt = spec_text("StreamCliLife_wit.cfg") + "INVARIANT %s\n" % w
+        return w, vlib.run_tlc("StreamCliLifeMC", "wit.cfg", workdir=wdir(), extra_files={"wit.cfg": txt}, workers=1, timeout=600, heap_gb=2)
 
-    with ThreadPoolExecutor(max_workers=4 if quick else 5) as ex:
+    with ThreadPoolExecutor(max_workers=3 if quick else 4) as ex:
         f_mc = [ex.submit(mc, j) for j in jobs]
         f_ld = [ex.submit(lead, j) for j in LEADS]
-        f_wt = [ex.submit(wit, j) for j in WITNESSES]
+        f_wt = [ex.submit(wit, w) for w in ([] if quick else WITNESSES)]
         r_mc, r_ld, r_wt = [f.result() for f in f_mc], [f.result() for f in f_ld], [f.result() for f in f_wt]
     live = {}
     for (cfg, _), res in r_mc:
@@ -109,7 +99,7 @@ def model_check(v, tier):
         v.cov["action_counts"] = live
         if dead:
             raise vlib.MachineryError("vacuity: actions never taken in any configuration: %s" % dead)
-    for (cfg, inv, c), res in r_ld:
+    for (cfg, inv), res in r_ld:
         v.add_tlc(cfg, res)
         if res.violation != inv:
             raise vlib.MachineryError("sensitivity: %s must violate %s (the deviation as implemented) but gave %s %s"
@@ -118,7 +108,7 @@ def model_check(v, tier):
         if res.violation != w:
             raise vlib.MachineryError("vacuity: witness %s not reachable (%s)" % (w, res.error or res.violation))
     v.cov["witnesses_reached"] = len(r_wt)
-    v.cov["leads_found_by_tlc"] = ["%s violates %s" % (c, i) for (c, i, _), _ in r_ld]
+    v.cov["leads_found_by_tlc"] = ["%s violates %s" % (c, i) for (c, i), _ in r_ld]
 
 
 # --------------------------------------------------------------------------
@@ -131,7 +121,7 @@ def project(path):
     """TLC action labels -> the operations of a history (SDK-internal steps dropped)."""
     ops = []
     for name, args in path:
-        if name.endswith("S") and name[:-1] in ACTIONS:
+        if name.endswith("S") and name[:-1] in ENV_ACTIONS:      # seam-level wrappers of StreamCliLifeMC
             name = name[:-1]
         if name == "AnsPost":
             ops.append(["Ans", args[0], args[1], args[2]])
@@ -150,27 +140,32 @@ def project(path):
     return ops
 
 
-def cover_histories(v, cfg, c, seed, prefix, max_paths=None):
+def cover_histories(v, cfg, seed, max_paths=None):
+    """One seam-level graph per profile (the profile is part of the state): a transition cover of each."""
     wd = wdir()
     dot = os.path.join(wd, "g.dot")
-    res = vlib.run_tlc("StreamCliLifeMC", cfg, workdir=wd, timeout=600, heap_gb=3, workers=2, extra_args=["-dump", "dot,actionlabels", dot])
+    res = vlib.run_tlc("StreamCliLifeMC", cfg, workdir=wd, timeout=900, heap_gb=3, workers=3, extra_args=["-dump", "dot,actionlabels", dot])
     vlib.tlc_must_pass(res, cfg)
     if not res.ok:
         raise vlib.MachineryError("cover model %s violates %s" % (cfg, res.violation))
     v.add_tlc(cfg, res)
-    init, edges = graphwalk.parse_dot(dot)
+    init, edges, states = graphwalk.parse_dot(dot, keep_state=True)
     os.remove(dot)
-    total_edges = sum(len(x) for x in edges.values())
-    paths, covered = graphwalk.cover(init, edges, maxlen=48, seed=seed)
-    if max_paths and len(paths) > max_paths:
-        rnd = random.Random(seed * 7919 + 13)
-        paths = rnd.sample(paths, max_paths)
-    v.cov.setdefault("graphs", []).append({"config": cfg, "nodes": len(edges), "edges": total_edges, "paths_replayed": len(paths),
-                                           "sampled": bool(max_paths and len(paths) == max_paths)})
-    return [{"id": "%s%d" % (prefix, i), "cfg": c, "ops": project(p)} for i, p in enumerate(paths)]
+    rows = []
+    for i0 in sorted(init, key=lambda n: cfg_of_state(states[n])[0]):
+        name, c = cfg_of_state(states[i0])
+        paths, total = graphwalk.cover([i0], edges, maxlen=48, seed=seed)
+        npaths = len(paths)
+        if max_paths and len(paths) > max_paths:
+            rnd = random.Random(seed * 7919 + 13)
+            paths = rnd.sample(paths, max_paths)
+        v.cov.setdefault("graphs", []).append({"profile": name, "cfg": c, "edges": total, "cover_paths": npaths,
+                                               "paths_replayed": len(paths)})
+        rows += [{"id": "cov%s.%d" % (name, i), "cfg": c, "ops": project(p)} for i, p in enumerate(paths)]
+    return rows
 
 
-def sim_histories(v, cfg, c, num, depth, seed, prefix):
+def sim_histories(v, cfg, num, depth, seed):
     wd = wdir()
     sim = os.path.join(wd, "sim")
     os.makedirs(sim)
@@ -184,10 +179,12 @@ def sim_histories(v, cfg, c, num, depth, seed, prefix):
     v.add_tlc("simulate:" + cfg, res)
     rows = []
     for i, f in enumerate(sorted(glob.glob(os.path.join(sim, "b_*")))):
-        labels = _slabel.findall(open(f).read())
+        txt = open(f).read()
+        labels = _slabel.findall(txt)
         ops = project([graphwalk.parse_label(x) for x in labels if not x.startswith("Init")])
         if ops:
-            rows.append({"id": "%s%d" % (prefix, i), "cfg": c, "ops": ops})
+            name, c = cfg_of_state(txt[:4000])
+            rows.append({"id": "sim%s.%d" % (name, i), "cfg": c, "ops": ops})
     shutil.rmtree(sim, ignore_errors=True)
     return rows
 
@@ -261,15 +258,19 @@ def sig_of(inv, e):
     if inv == "L9.ConnectHonoursContext":
         opn = sorted({q["tag"] for q in reqs if q["st"] == "open"})
         return "%s:connect-waiting-for=%s" % (inv, "+".join(opn) or "nothing")
-    if inv.startswith("L8.NothingLeft"):
-        # how did the calls whose response streams are still open end?
-        ends = set()
+    if inv == "L8.NothingLeft":
+        # which bodies are still open, and how did the calls they belong to end?
+        kinds = set()
         for q in reqs:
-            if q["meth"] == "POST" and q["rbody"] == "open":
+            if q["rbody"] == "open":
+                if q["meth"] == "GET":
+                    kinds.add("standalone-stream")
+                    continue
                 res = [c["res"] for c in e.get("calls", []) if "c%d" % c["k"] == q["tag"]]
-                ends.add(res[0] if res else ("connect" if q["tag"] == "init" else "?"))
-        left = ",".join(sorted(set((e.get("leak") or "").split(",")))) if inv.endswith("goroutine") else ""
-        return "%s:open-response-stream-of-call-ended-by=%s%s" % (inv, "+".join(sorted(ends)) or "none", (":left=" + left) if left else "")
+                r = res[0] if res else ("connect" if q["tag"] == "init" else "?")
+                kinds.add("response-stream-of-failed-call" if r in ("gone", "fatal", "rej", "closed") else "response-stream-of-call-ended-" + r)
+        left = ",".join(sorted(set((e.get("leak") or "").split(","))))
+        return "%s:%s:left=%s" % (inv, "+".join(sorted(kinds)) or "no-body", left or "nothing")
     op = e.get("op")
     arg = ""
     if op == "Ans":
@@ -379,12 +380,10 @@ def run(tier, seed, replay):
     else:
         with ThreadPoolExecutor(max_workers=1) as bg:
             fut = bg.submit(model_check, v, tier)
-            nsim = 150 if quick else 1500
-            gens = [(lambda cfg=cfg, c=c, i=i: cover_histories(v, cfg, c, seed, "cov%s." % cfg[-5], 260 if quick else None))
-                    for i, (cfg, c) in enumerate(COVERS)]
-            gens += [(lambda cfg=cfg, c=c, i=i: sim_histories(v, cfg, c, nsim, 34, seed + i, "sim%s." % cfg[-5]))
-                     for i, (cfg, c) in enumerate(SIMS)]
-            with ThreadPoolExecutor(max_workers=3) as ex:
+            nsim = 400 if quick else 5000
+            gens = [lambda: cover_histories(v, "StreamCliLife_cover.cfg", seed, 160 if quick else None),
+                    lambda: sim_histories(v, "StreamCliLife_sim.cfg", nsim, 36, seed)]
+            with ThreadPoolExecutor(max_workers=2) as ex:
                 rows = [r for part in ex.map(lambda g: g(), gens) for r in part]
             rows = corner_histories() + rows
             lap("generate")
@@ -411,7 +410,7 @@ def run(tier, seed, replay):
         if os.path.exists(op):
             os.remove(op)
         rc, gout, wall = vlib.go_test("mcp", "^TestVerif_X12$", HARNESS, env={"VERIF_IN": hp, "VERIF_OUT": op, "VERIF_SEED": seed + 1000 * i},
-                                      timeout=900, race=(not quick and i == 0), extra_args=["-p", "4"])
+                                      timeout=240, race=(not quick and i == 0), extra_args=["-p", "4"])
         vlib.go_must_build(rc, gout, PID)
         got = vlib.read_ndjson(op) if os.path.exists(op) else []
         os.remove(hp)
